@@ -193,7 +193,9 @@ G_Term(cls, m, n, b, seed, depth, mode) ==
             IN Op_BatchRepeat(sub(m, n, bb, seed + 3), reps0)
        [] cls = "Cat" ->
             LET r == Len(b) + 2
-                dsel == seed % (IF Len(b) > 0 THEN 3 ELSE 2)       \* 0: rows, 1: cols, 2: first batch dim
+                \* 0: rows, 1: cols, 2: first batch dim (always a batch dim when there are three of them: that is where the
+                \*    concatenation axis has to be tracked through batch permutations / reductions)
+                dsel == IF Len(b) >= 3 THEN 2 ELSE seed % (IF Len(b) > 0 THEN 3 ELSE 2)
                 full == b \o <<m, n>>
                 p == IF dsel = 0 THEN r - 1 ELSE IF dsel = 1 THEN r ELSE 1
                 tot == full[p]
